@@ -414,6 +414,9 @@ package db
 // ---- structural contracts (decided over go/types and the static call graph) ---------------
 // Documented schema-version-1 layout (kv.go): renaming a field or adding a plaintext index fails here.
 //@ layout [C03,C05 wrapped] wrapped { Version uint32; DEK []byte; DB []byte }
+// the in-memory store is the table, its keys and the generation: it keeps no scratch state that values handed
+// out could share (A-append/A-subslice abstract in-place appends away, so a shared buffer would not show in a clause)
+//@ layout [C01,C14 kv-keeps-no-scratch-state] kv { path string; secrets map[string]*secret; dek *keyset.Handle; dekCipher tink.AEAD; dekRaw []byte; kekCipher tink.AEAD; gen uint64 }
 //@ layout [C02,C03,C18 persist] persist { Secrets map[string]*secret }
 //@ layout [C02,C03,C18 secret] secret { Versions map[api.SecretVersion]byteString; ActiveVersion api.SecretVersion; LatestVersion api.SecretVersion }
 //@ pin [C03 schema-version] const databaseSchemaVersion == 1
